@@ -55,6 +55,10 @@ def parts_of(ret):
         return ps[0], ps[2], None
     if len(rest) == 2 and rest[0] == "e" and isinstance(rest[1], Suffix):
         return ps[0], ps[2], rest[1].k
+    if len(rest) == 2 and rest[0] == "e" and isinstance(rest[1], pyz3.ExpStr):
+        # the exponent field of a '%e' rendering spliced in as it is: sign and at least two digits, which is what
+        # '+03d' prints for the same integer
+        return ps[0], ps[2], rest[1].e
     raise EncodingError("unexpected suffix")
 
 
